@@ -15,6 +15,8 @@ PROPS = {
     "C18": {"rule": "TODO", "level_text": "TODO", "level_note": "TODO"},
     "C11": {"rule": "TODO", "level_text": "TODO", "level_note": "TODO"},
     "C10": {"rule": "TODO", "level_text": "TODO", "level_note": "TODO"},
+    "C19": {"rule": "TODO", "level_text": "TODO", "level_note": "TODO"},
+    "C05": {"rule": "TODO", "level_text": "TODO", "level_note": "TODO"},
     "C01": {
         "rule": "TODO",
         "level_text": "TODO", "level_note": "TODO",
